@@ -238,6 +238,19 @@ impl Prop for C05 {
             for b in &prog.blocks {
                 check_block(prog, b, &pl, &cfg, &cond_wrapped, &mut findings, &mut out);
             }
+            // depth 0 is column 0: what the generator starts at the outermost level of the file (unit /
+            // program head, section keywords, declarations sections and routine headings of the file
+            // level, the final `end.`) starts its line without any indentation
+            for (ti, t) in prog.toks.iter().enumerate() {
+                if t.line_start && t.depth == 0 {
+                    let (l, f) = pl.lead(ti);
+                    out.count("top_level_starts_checked");
+                    if f && !l.is_empty() {
+                        findings.push(Finding { class: "top-level-indented", detail: format!("token {:?} of the file's outermost level is indented by {:?} (…{}…)", t.text, l, excerpt(pl.out, pl.off[ti], 50).replace('\n', "⏎")), ord: pl.ord[ti], kind: BlockKind::UnitSection, in_anon: false });
+                        break;
+                    }
+                }
+            }
             let mut reported = 0;
             for f in findings {
                 let in_header_anon_stmt = header_anon_ords.iter().any(|(a, b)| f.ord >= *a && f.ord <= *b);
